@@ -93,7 +93,7 @@ def pool(seed, tier):
     # raising calls
     cfgs += [{'kind': 'dwt1f', 'wave': 'db8', 'mode': 'reflect', 'J': 1, 'shape': [5], 'raises': True},
              {'kind': 'dwt2f', 'wave': 'db8', 'mode': 'reflect', 'J': 2, 'shape': [6, 6], 'raises': True}]
-    extra = 6 if tier == 'quick' else 40
+    extra = 2 if tier == 'quick' else 40
     for _ in range(extra):
         cfgs.append(adapters.random_config(rnd.choice(adapters.ALL_KINDS), rnd))
     specs = []
